@@ -16,6 +16,15 @@ OWNED = set(proxylib.OWNED)
 FRAMING = {"content-length", "transfer-encoding", "connection", "date", "keep-alive", "te", "trailer"}
 
 
+
+def origin_form(target):
+    """the origin-form of an absolute-form request target (same resource: RFC 9112 3.2.2); other targets unchanged"""
+    if target.lower().startswith("http://"):
+        rest = target[7:]
+        k = rest.find("/")
+        return rest[k:] if k >= 0 else "/"
+    return target
+
 def norm(headers, drop):
     """per-name ordered value lists of the headers whose lower-cased name is not in `drop`"""
     out = {}
@@ -57,7 +66,10 @@ def run(c):
                 method = rnd.choice(["GET", "POST", "PUT", "DELETE", "PATCH", "OPTIONS", "HEAD"][:6])
                 target = rnd.choice(["/a", "/machine/plugins?comp=x&y=%2F", "/metadata/instance?api-version=2021-02-01", "/UPPER/Case", "/p/" + rid,
                                      # two dots in the QUERY are data (a range, a version span, a file name), literally or percent-encoded
-                                     "/blob/" + rid + "?range=0..4095", "/q?name=report..final.txt&tag=a%2E%2Eb", "/q?v=2.0.%2e3&x=%2e."])
+                                     "/blob/" + rid + "?range=0..4095", "/q?name=report..final.txt&tag=a%2E%2Eb", "/q?v=2.0.%2e3&x=%2e.",
+                                     # absolute-form request targets (what a client configured with an http proxy sends), with a query
+                                     "http://%s/abs/%s?api-version=2021-02-01&format=json" % (dip, rid),
+                                     "http://%s/metadata/instance?api-version=2021-02-01" % dip])
                 blen = 0 if method in ("GET", "OPTIONS") else rnd.choice([0, 1, 7, 1024, 65536, 102400])
                 framing = "none" if blen == 0 and rnd.random() < 0.8 else rnd.choice(["cl", "chunked"])
                 hs = [["Host", dip], ["X-Token", rid]]
@@ -235,7 +247,7 @@ def run(c):
             gotn = norm(h["headers"], OWNED | FRAMING)
             extra = {n for n, _ in h["headers"]} and {n.lower() for n, _ in h["headers"]} - {n.lower() for n, _ in m["headers"]} - {"x-verif-id"}
             row.update({"respFor": respfor, "hostConnOf": hconn_owner.get(h["hconn"], "?"), "hostSeq": h["_seq"],
-                        "reqLine": h["method"] == m["method"] and h["target"] == m["target"] and len(recv_by_id[asked]) == 1,
+                        "reqLine": h["method"] == m["method"] and h["target"] in (m["target"], origin_form(m["target"])) and len(recv_by_id[asked]) == 1,
                         "reqBody": h["bodyLen"] == m["blen"] and h["bodySha"] == util.sha(rig.gen_body(m["bseed"], m["blen"])),
                         "reqHeaders": want == gotn,
                         "reqExtraOnlyOwned": extra <= (OWNED | FRAMING)})
